@@ -378,6 +378,27 @@ def check_immut(case):
                 n += 1
         if o.serialize() != before or o.GetHash() != h0:
             raise Violation('immut/changed', '%s changed after attempted attribute writes' % type(o).__name__)
+    # cached identifiers == identifiers recomputed from the serialisation, for immutable objects obtained by EVERY route:
+    # constructor, from_tx of a mutable twin, parsing canonical bytes, parsing the non-canonical encodings the parser accepts
+    from .c02 import _noncanonical
+    from bitcoin.core import Hash
+    for wit in (None, [[b'w', b''], []], [[], [b'']]):
+        model = {'version': 2, 'vin': [(b'\x07' * 32, 1, b'\x51', 5), (b'\x08' * 32, 0, b'', 0xffffffff)], 'vout': [(9, b'\x52'), (0, b'')], 'wit': wit,
+                 'locktime': case.get('value', 1) % 2 ** 32 if isinstance(case.get('value', 1), int) and case.get('value', 1) >= 0 else 3}
+        routes = [('constructor', libx.mk_tx(model, False)), ('from_tx', CTransaction.from_tx(libx.mk_tx(model, True))),
+                  ('deserialize', CTransaction.deserialize(W.enc_tx(model)))]
+        for tag, enc in _noncanonical(model):
+            try:
+                routes.append(('deserialize-noncanonical-' + tag, CTransaction.deserialize(enc)))
+            except Exception:
+                pass
+        for tag, o in routes:
+            for _ in range(2):
+                ser = o.serialize()
+                if o.GetHash() != Hash(ser) or hash(o) != hash(ser) or o.GetTxid() != Hash(o.serialize({'include_witness': False})):
+                    raise Violation('immut/cached-ids-' + tag.split(':')[0], 'cached identifiers of an immutable transaction obtained via %s differ from '
+                                    'the identifiers recomputed from its serialisation' % tag)
+            n += 1
     return {'nt': True, 'evals': n, 'cls': ['immutability']}
 
 
